@@ -7,7 +7,7 @@ env = dict(os.environ, VERIF_EVIDENCE_DIR=os.path.join(V, ".work", "evidence-see
 rows = []
 for m in sorted(glob.glob(V + "/seeded/*/meta.json")):
     d = json.load(open(m))
-    if d.get("kind") == "harmless refactoring":
+    if d.get("kind") == "harmless refactoring" or (len(sys.argv) > 1 and d["name"] not in sys.argv[1:]):
         continue
     pid = d["property"]
     patch = os.path.join(os.path.dirname(m), "patch.diff")
